@@ -97,6 +97,14 @@ fn vec_replay<T: Pod>(lines: &[String], slots: usize) -> (usize, usize, Vec<Valu
                     "Reserve" => {
                         let n = a["n"].as_u64().unwrap() as usize;
                         ledger::track(|| cview::cv_vec_reserve(vpm(vecs[v].as_mut().unwrap()), n));
+                        // what a C caller relies on before writing n elements at data[len..]
+                        let cv = vecs[v].as_ref().unwrap();
+                        if cv.capacity() - cv.len() < n {
+                            failures.push(json!({"behaviour": bi, "step": si, "msg": format!("after reserve_fn(vec, {}) through the C layout only {} free slots (len {}, capacity {})", n, cv.capacity() - cv.len(), cv.len(), cv.capacity()), "beh": beh}));
+                            for cv in vecs.iter_mut() { std::mem::forget(cv.take()); }
+                            if failures.len() >= 10 { break 'beh; }
+                            continue 'beh;
+                        }
                     }
                     "Clone" => {
                         let w = a["w"].as_u64().unwrap() as usize - 1;
